@@ -69,6 +69,48 @@ def run(rep, tier, seed, budget):
             rep.parts.append({"name": name, "complete": False, "paths": 0, "bounds": bounds, "claim": "not started (time budget)"})
             continue
         rt.explore(rep, ctx, name, mk, jf, bounds, left * 0.5, table_mode=tm, kind="stable", reencode=True)
+    # the table changes between calls: symbols decoded (or rejected) under table A, then A -> B through the real setter,
+    # then encoder / decoder / encoder under B
+    from .. import driver, dech, ench
+    from ..ctx import table_model
+    from ..engine import fresh_int
+    WARM = ["[C][NH4]", "[ClH2][C]", "[C][CH5]", "[NH4+1][C]"]
+    SM = ["C[NH4]", "[ClH2]C", "C[CH5]", "C[NH4+]", "CN", "[NH3]C"]
+
+    def hist_path(eng, col):
+        ctx.reset()
+        bc = ctx.bc
+        A = {"C": fresh_int("aC", 3, 6), "N": fresh_int("aN", 2, 6), "N+1": 4, "Cl": fresh_int("aCl", 1, 3), "H": 1, "?": 2}
+        B = {"C": fresh_int("bC", 3, 6), "N": fresh_int("bN", 2, 6), "N+1": 4, "Cl": fresh_int("bCl", 1, 3), "H": 1, "?": 2}
+        wi = int(fresh_int("warm", 0, len(WARM) - 1))
+        si = int(fresh_int("smi", 0, len(SM) - 1))
+        bc.set_semantic_constraints(dict(A))
+        dech.run_decoder(ctx, WARM[wi])
+        bc.set_semantic_constraints(dict(B))
+        r = ench.run_encoder(ctx, SM[si], strict=True)
+        if r[0] != "ok":
+            col.count(r[0])
+            return
+        e = str(r[1])
+        d = dech.run_decoder(ctx, e)
+        col.count("accepted")
+        col.nontrivial((wi, si, d[0]))
+        col.sample({"warm_decode": WARM[wi], "smiles": SM[si], "selfies": e, "decodes": d[0]})
+        bad = d[0] != "ok"
+        if not bad:
+            r2 = ench.run_encoder(ctx, str(d[1]), strict=True)
+            bad = r2[0] != "ok" or str(r2[1]) != e
+        if bad:
+            m = eng.current_model()
+            col.candidate({"prop": "C10", "kind": "stable_history", "table_a": table_model(m, A), "table_b": table_model(m, B),
+                           "warm": WARM[wi], "smiles": SM[si]})
+
+    left = t_end - time.time()
+    if left > 4:
+        res = driver.explore_parallel(hist_path, min(40, left * 0.8))
+        rep.add_part("table change between calls: decode under A, set B, then encoder output must be decodable and stable under B", res,
+                     {"tables": "A, B: C, N, Cl free", "warm-up decodes": WARM, "smiles": SM})
+
     rep.probe_cases.append({"prop": "C10", "kind": "stable", "smiles": KNOWN_PROBE, "table": None, "advisory": True})
     rep.assumptions += ["inputs: bracket atoms with every field of SMILES_BRACKETED_ATOM_PATTERN as a slot, uniform token strings, C03's spelling and spacer templates",
                         "standard spelling is computed independently (vf/docs.py standard_atom_text); @ / @@ may be flipped by the encoder (C04's subject) and is compared modulo that",
